@@ -1,19 +1,10 @@
 import LJT.Proofs.Lossless
+import LJT.Model.LosslessDec
 import LJT.Proofs.RstFraming
 /-! The entropy-coded data of a whole lossless scan - restart intervals joined by RSTn markers - decodes,
 interval by interval, to the differences that were coded (modulo 2^16). -/
 namespace LJT.LL
 open LJT.Huff LJT.Bits
-
-/-- decode every restart interval of a scan: `counts[k]` MCUs from the bytes of interval `k` -/
-def decodeSegments (dds : List DDerived) (tblOf : List Nat) (nc : Nat) :
-    List Nat → List (List Nat) → Option (List (List (Nat × Int)))
-  | [], [] => some []
-  | n :: ns, seg :: segs =>
-    match decodeItems dds tblOf nc n (segmentBits seg), decodeSegments dds tblOf nc ns segs with
-    | some (items, _), some rest => some (items :: rest)
-    | _, _ => none
-  | _, _ => none
 
 theorem decodeSegments_ok (cds : List CDerived) (dds : List DDerived) (tblOf : List Nat) (nc : Nat)
     (htab : TablesOK cds dds tblOf 0 nc) :
